@@ -134,7 +134,9 @@ func selectContracts(e *Engine, pred func(c *Contract) bool) []*Contract {
 func verifyContracts(e *Engine, cs []*Contract, d *Discharger) ([]*UnitResult, error) {
 	pkgSet := map[string]bool{}
 	for _, c := range cs {
-		pkgSet[c.Pkg] = true
+		if c.Pkg != "" {
+			pkgSet[c.Pkg] = true
+		}
 	}
 	var pkgs []string
 	for p := range pkgSet {
